@@ -1,6 +1,10 @@
 HOOK_COMMITS = []
 NOTES = "Model checking = bounded exhaustive exploration of the real code against reference models; see DESIGN.md. Exit 0 held / 1 violation / >=2 machinery failure."
 ENGINES = [
+    {"name": "vc_expect", "path": "harness/src/engines/vc_expect.rs", "serves_properties": ["C08"],
+     "kind_free_text": "stateless exhaustive enumeration of suffix-grammar words vs reference grammar + round trip"},
+    {"name": "vc_escape", "path": "harness/src/engines/vc_escape.rs", "serves_properties": ["C11"],
+     "kind_free_text": "stateless exhaustive enumeration of bytes / pairs / scalars / short strings through both escapers with parse-back"},
     {"name": "vc_rules", "path": "harness/src/engines/vc_rules.rs", "serves_properties": ["C04"],
      "kind_free_text": "stateless exhaustive enumeration of (expression x line) per rule kind vs reference matchers"},
     {"name": "vc_diff", "path": "harness/src/engines/vc_diff.rs", "serves_properties": ["C01", "C02", "C03"],
@@ -26,5 +30,15 @@ CHECKS.append(
      "technique": "bounded exhaustive enumeration of expressions (strings / regex ASTs) x candidate lines per rule kind against independent reference matchers",
      "text": "Per rule kind every expression up to the stated size (regex: every AST, so top-level alternation and nesting occur) is parsed by the real ExpectationMaker (default and cram-compat registries) and evaluated on every candidate line of its family; the verdict must equal an independent reference matcher (byte equality, one-pass escape decoder, textbook glob, backtracking whole-line regex matcher).",
      "note": "bounded expression/line length over focused alphabets; third-party regex/wildmatch syntax outside the alphabets not explored"})
+CHECKS.append(
+    {"id": "C08", "engine": "vc_expect", "category": "exploration", "design_ref": "DESIGN.md §2 C08",
+     "technique": "bounded exhaustive enumeration of all words of the expectation suffix grammar through the real parser, compared with a reference grammar; render/parse round trip on each",
+     "text": "Every line base . s1 .. sk (k<=2 quick, <=3 thorough) over all kinds/aliases x quantifiers plus malformed look-alikes is parsed by the real ExpectationMaker: no panic, errors only for malformed regex/escaped expressions, kind/quantifier/expression equal to an independently written reference grammar; then rendered under both escapers, re-parsed and compared on quantifier and on matching over a probe set of line contents.",
+     "note": "single-space separator only; probe-set based equivalence for the round trip; five recorded known findings (Cram-compat `(no-eol)` stripping, no syntax for escaped regex/no-eol)"})
+CHECKS.append(
+    {"id": "C11", "engine": "vc_escape", "category": "exploration", "design_ref": "DESIGN.md §2 C11",
+     "technique": "exhaustive enumeration of all bytes, all byte pairs, all Unicode scalars and all short strings over a focused alphabet through both escapers, with real parse-back",
+     "text": "For every enumerated line under both escapers (with and without final LF) the written text must be printable (ASCII 0x20-0x7E / no Unicode category C per the regex crate's tables) and, parsed back by the real ExpectationMaker as the kind it is marked with, must decode to exactly the original bytes.",
+     "note": "Unicode classification from the regex crate's tables; strings bounded to length 4/5 over 15 symbols"})
 claimed = {c["id"] for c in CHECKS}
 NOT_APPLICABLE = [{"property_id": p, "reason": "check not built yet (work in progress; planned in DESIGN.md)"} for p in ALL if p not in claimed]
